@@ -69,3 +69,8 @@ Qed.
 
 Lemma tie_shape : Gen.Page.WriteTo_shape = writeto_shape.
 Proof. reflexivity. Qed.
+
+(* the fallback writer's step order and protections, regenerated from mwrite_prot.go *)
+Lemma tie_fallback_shape : Gen.Page.writeTo_fallback_shape = fallback_shape.
+Proof. reflexivity. Qed.
+
